@@ -499,4 +499,180 @@ theorem chooseCall_lookup_extracted (cfg : Cfg) (params : List Str) (st : Bool) 
     simp only [↓reduceIte] at heq ⊢
     rw [heq]
 
+/-! ### extraction succeeds when the branch buffers can be built -/
+
+theorem ctl_stack {b c : MB} (h : c.ctl = b.ctl) : c.stack = b.stack := by
+  simp only [MB.ctl, Prod.mk.injEq] at h; exact h.2.2.2
+
+theorem mbAppend_outer_ok (b : MB) (e : TEvent) (he : outerEv e = true) (hs : b.stack ≠ []) :
+    ∃ c, mbAppend b e = .ok c := by
+  cases e with
+  | text s =>
+    cases hst : b.stack with
+    | nil => exact absurd hst hs
+    | cons top rest =>
+      refine ⟨({ b with str := b.str ++ escBrackets s }).add top (.ev (.text (escBrackets s))), ?_⟩
+      simp only [mbAppend, hst, pure, Except.pure]
+  | other l => exact ⟨b, rfl⟩
+  | exec l => exact ⟨b, rfl⟩
+  | start _ _ => simp [outerEv] at he
+  | end_ _ => simp [outerEv] at he
+  | expr _ _ => simp [outerEv] at he
+  | sub _ _ => simp [outerEv] at he
+
+theorem mbAppendList_outer_ok : ∀ (evs : List TEvent) (b : MB), (∀ e ∈ evs, outerEv e = true) → b.stack ≠ [] →
+    ∃ c, mbAppendList b evs = .ok c
+  | [], b, _, _ => ⟨b, rfl⟩
+  | e :: es, b, ho, hs => by
+      obtain ⟨b1, h1⟩ := mbAppend_outer_ok b e (ho e (by simp)) hs
+      obtain ⟨hc1, _⟩ := mbAppend_outer b b1 e (ho e (by simp)) h1
+      obtain ⟨c, hc⟩ := mbAppendList_outer_ok es b1 (fun x hx => ho x (by simp [hx])) (by rw [ctl_stack hc1]; exact hs)
+      exact ⟨c, by simp [mbAppendList, bind, Except.bind, h1, hc]⟩
+
+theorem chooseLoop_outer_fwd (cfg : Cfg) (st : Bool) : ∀ (evs : List TEvent) (sb pb sb' pb' : MB),
+    (∀ e ∈ evs, outerEv e = true) → mbAppendList sb evs = .ok sb' → mbAppendList pb evs = .ok pb' →
+    chooseLoop cfg st sb pb evs = .ok ([], sb', pb')
+  | [], sb, pb, sb', pb', _, h1, h2 => by
+      simp only [mbAppendList, pure, Except.pure, Except.ok.injEq] at h1 h2
+      subst h1; subst h2; rfl
+  | e :: es, sb, pb, sb', pb', ho, h1, h2 => by
+      simp only [mbAppendList, bind, Except.bind] at h1 h2
+      cases hs : mbAppend sb e with
+      | error err => simp [hs] at h1
+      | ok sb1 =>
+        cases hp : mbAppend pb e with
+        | error err => simp [hp] at h2
+        | ok pb1 =>
+          simp only [hs] at h1
+          simp only [hp] at h2
+          have he := ho e (by simp)
+          have hstep : chooseStep cfg st sb pb e = .ok ([], sb1, pb1) := by
+            have hns : ∀ d b, e ≠ .sub d b := by intro d b hh; subst hh; simp [outerEv] at he
+            have : chooseStep cfg st sb pb e = (do
+                let sb' ← mbAppend sb e
+                let pb' ← mbAppend pb e
+                pure (evMessages cfg st e, sb', pb')) := by
+              cases e with
+              | sub d b => exact absurd rfl (hns d b)
+              | _ => rfl
+            rw [this, hs, hp, startAttrs_outer cfg st e he]; rfl
+          have ih := chooseLoop_outer_fwd cfg st es sb1 pb1 sb' pb' (fun x hx => ho x (by simp [hx])) h1 h2
+          simp [chooseLoop, hstep, ih, bind, Except.bind, pure, Except.pure]
+
+theorem chooseLoop_append_fwd (cfg : Cfg) (st : Bool) : ∀ (x y : List TEvent) (sb pb sb1 pb1 : MB)
+    (m1 m2 : List Message) (r : MB × MB),
+    chooseLoop cfg st sb pb x = .ok (m1, sb1, pb1) → chooseLoop cfg st sb1 pb1 y = .ok (m2, r) →
+    chooseLoop cfg st sb pb (x ++ y) = .ok (m1 ++ m2, r)
+  | [], y, sb, pb, sb1, pb1, m1, m2, r, h1, h2 => by
+      simp only [chooseLoop, pure, Except.pure, Except.ok.injEq, Prod.mk.injEq] at h1
+      obtain ⟨rfl, rfl, rfl⟩ := h1
+      simpa using h2
+  | e :: x, y, sb, pb, sb1, pb1, m1, m2, r, h1, h2 => by
+      simp only [chooseLoop, bind, Except.bind] at h1
+      cases hs : chooseStep cfg st sb pb e with
+      | error err => simp [hs] at h1
+      | ok r1 =>
+        obtain ⟨ms1, sb', pb'⟩ := r1
+        simp only [hs] at h1
+        cases hl : chooseLoop cfg st sb' pb' x with
+        | error err => simp [hl] at h1
+        | ok r2 =>
+          obtain ⟨ms2, sb2, pb2⟩ := r2
+          simp only [hl, pure, Except.pure, Except.ok.injEq, Prod.mk.injEq] at h1
+          obtain ⟨rfl, rfl, rfl⟩ := h1
+          have ih := chooseLoop_append_fwd cfg st x y sb' pb' sb2 pb2 ms2 m2 r hl h2
+          simp [chooseLoop, hs, ih, bind, Except.bind, pure, Except.pure, List.append_assoc]
+
+theorem branchExtract_fwd (cfg : Cfg) (st : Bool) (b b' : MB) (t t' : QName) (a : TAttrs) (c : List TEvent)
+    (h : mbAppendList b c = .ok b') :
+    ∃ ms, branchExtract cfg st b (.start t a :: (c ++ [.end_ t'])) = .ok (ms, b') := by
+  have hb := appendAll_buffer cfg st c b
+  rw [h] at hb
+  cases ha : appendAll cfg st b c with
+  | error err => rw [ha] at hb; simp [Except.map] at hb
+  | ok q =>
+    rw [ha] at hb
+    simp only [Except.map, Except.ok.injEq] at hb
+    refine ⟨startAttrs cfg st (.start t a) ++ q.1 ++ exprCode (.end_ t'), ?_⟩
+    simp only [branchExtract, TEvent.isStart, ↓reduceIte, List.getLast?_append, List.getLast?_singleton,
+      Option.some_or, List.dropLast_concat, TEvent.isEnd, bind, Except.bind, ha, pure, Except.pure, hb]
+
+theorem contextedGet_ngettext : (contextedGet (some ngettextName)).isSome = true := by decide +kernel
+
+/-- **`ChooseDirective.extract` succeeds** on
+    `<t i18n:choose> pre <ts i18n:singular>cS</ts> mid <tp i18n:plural>cP</tp> post </t>` whenever
+    the two branch buffers can be built (as many parameters as expressions) and the branch
+    contents leave the buffer's stack non-empty (balanced content does) -/
+theorem chooseExtract_ok (cfg : Cfg) (params : List Str) (st : Bool) (cs xs : List Str)
+    (t t' ts ts' tp tp' : QName) (a as ap : TAttrs) (pre mid post cS cP : List TEvent)
+    (hpre : ∀ e ∈ pre, outerEv e = true) (hmid : ∀ e ∈ mid, outerEv e = true) (hpost : ∀ e ∈ post, outerEv e = true)
+    (C D : MB) (hC : mbAppendList (MB.new params) cS = .ok C) (hD : mbAppendList (MB.new params) cP = .ok D)
+    (hCs : C.stack ≠ []) (hDs : D.stack ≠ []) :
+    ∃ ms, chooseExtract cfg params st cs xs
+      (.start t a :: ((pre ++ .sub [.singular] (.start ts as :: (cS ++ [.end_ ts'])) ::
+        (mid ++ .sub [.plural] (.start tp ap :: (cP ++ [.end_ tp'])) :: post)) ++ [.end_ t'])) = .ok ms := by
+  have hN : (MB.new params).stack ≠ [] := by simp [MB.new]
+  -- the singular buffer
+  obtain ⟨sb1, hsb1⟩ := mbAppendList_outer_ok pre _ hpre hN
+  obtain ⟨hc1, w1, _, hs1⟩ := mbAppendList_outer pre _ _ hpre hsb1
+  have hrelS : PrefRel w1 (MB.new params) sb1 := ⟨hc1, by simp [hs1, MB.new]⟩
+  have hprefS := mbAppendList_pref w1 cS _ _ hrelS
+  rw [hC] at hprefS
+  cases hsb2 : mbAppendList sb1 cS with
+  | error err => rw [hsb2] at hprefS; exact hprefS.elim
+  | ok sb2 =>
+    rw [hsb2] at hprefS
+    have hst2 : sb2.stack ≠ [] := by rw [ctl_stack hprefS.1]; exact hCs
+    obtain ⟨sb3, hsb3⟩ := mbAppendList_outer_ok mid sb2 hmid hst2
+    obtain ⟨hc3, _, _, _⟩ := mbAppendList_outer mid _ _ hmid hsb3
+    obtain ⟨sbE, hsbE⟩ := mbAppendList_outer_ok post sb3 hpost (by rw [ctl_stack hc3]; exact hst2)
+    -- the plural buffer
+    obtain ⟨pb1, hpb1⟩ := mbAppendList_outer_ok pre _ hpre hN
+    obtain ⟨hd1, v1, _, ht1⟩ := mbAppendList_outer pre _ _ hpre hpb1
+    obtain ⟨pb3, hpb3⟩ := mbAppendList_outer_ok mid pb1 hmid (by rw [ctl_stack hd1]; exact hN)
+    obtain ⟨hd3, v3, _, ht3⟩ := mbAppendList_outer mid _ _ hmid hpb3
+    have hrelP : PrefRel (v1 ++ v3) (MB.new params) pb3 := ⟨hd3.trans hd1, by simp [ht3, ht1, MB.new]⟩
+    have hprefP := mbAppendList_pref (v1 ++ v3) cP _ _ hrelP
+    rw [hD] at hprefP
+    cases hpb4 : mbAppendList pb3 cP with
+    | error err => rw [hpb4] at hprefP; exact hprefP.elim
+    | ok pb4 =>
+      rw [hpb4] at hprefP
+      have hst4 : pb4.stack ≠ [] := by rw [ctl_stack hprefP.1]; exact hDs
+      obtain ⟨pbE, hpbE⟩ := mbAppendList_outer_ok post pb4 hpost hst4
+      -- the loop
+      have l1 := chooseLoop_outer_fwd cfg st pre _ _ sb1 pb1 hpre hsb1 hpb1
+      obtain ⟨msS, hbrS⟩ := branchExtract_fwd cfg st sb1 sb2 ts ts' as cS hsb2
+      have stepS : chooseStep cfg st sb1 pb1 (.sub [.singular] (.start ts as :: (cS ++ [.end_ ts']))) = .ok (msS, sb2, pb1) := by
+        simp [chooseStep, chooseStep.loop, hbrS, bind, Except.bind, pure, Except.pure]
+      have l3 := chooseLoop_outer_fwd cfg st mid sb2 pb1 sb3 pb3 hmid hsb3 hpb3
+      obtain ⟨msP, hbrP⟩ := branchExtract_fwd cfg st pb3 pb4 tp tp' ap cP hpb4
+      have stepP : chooseStep cfg st sb3 pb3 (.sub [.plural] (.start tp ap :: (cP ++ [.end_ tp']))) = .ok (msP, sb3, pb4) := by
+        simp [chooseStep, chooseStep.loop, hbrP, bind, Except.bind, pure, Except.pure]
+      have l5 := chooseLoop_outer_fwd cfg st post sb3 pb4 sbE pbE hpost hsbE hpbE
+      have l45 : chooseLoop cfg st sb3 pb3 (.sub [.plural] (.start tp ap :: (cP ++ [.end_ tp'])) :: post) = .ok (msP ++ [], sbE, pbE) := by
+        simp [chooseLoop, stepP, l5, bind, Except.bind, pure, Except.pure]
+      have l345 := chooseLoop_append_fwd cfg st mid _ sb2 pb1 sb3 pb3 [] _ _ l3 l45
+      have l2345 : chooseLoop cfg st sb1 pb1 (.sub [.singular] (.start ts as :: (cS ++ [.end_ ts'])) ::
+          (mid ++ .sub [.plural] (.start tp ap :: (cP ++ [.end_ tp'])) :: post)) = .ok (msS ++ ([] ++ (msP ++ [])), sbE, pbE) := by
+        simp only [chooseLoop, stepS, l345, bind, Except.bind, pure, Except.pure]
+      have lall := chooseLoop_append_fwd cfg st pre _ _ _ sb1 pb1 [] _ _ l1 l2345
+      -- the directive
+      have hne : ∀ (l : List TEvent), l ++ [TEvent.end_ t'] ≠ [] := by intro l; simp
+      obtain ⟨f, hf⟩ := Option.isSome_iff_exists.mp contextedGet_ngettext
+      have hctx : ∃ m, contextify (some ngettextName) (.many [some sbE.format, some pbE.format]) (lastSlice cs) (lastSlice xs) = some m := by
+        cases lastSlice xs with
+        | nil => exact ⟨_, rfl⟩
+        | cons c rest => exact ⟨⟨some f, .many [some c, some sbE.format, some pbE.format], lastSlice cs⟩, by simp [contextify, hf]⟩
+      obtain ⟨m, hm⟩ := hctx
+      simp only [chooseExtract, TEvent.isStart, ↓reduceIte]
+      cases hrest : (pre ++ TEvent.sub [.singular] (.start ts as :: (cS ++ [.end_ ts'])) ::
+            (mid ++ TEvent.sub [.plural] (.start tp ap :: (cP ++ [.end_ tp'])) :: post)) ++ [TEvent.end_ t'] with
+      | nil => exact absurd hrest (hne _)
+      | cons x y =>
+        simp only
+        rw [← hrest, List.dropLast_concat]
+        simp only [lall, bind, Except.bind, hm, pure, Except.pure]
+        exact ⟨_, rfl⟩
+
 end Genshi.I18n
